@@ -70,6 +70,7 @@ type Step struct {
 	// "mqraw" broker sends Raw; "adv" virtual time advances D ms; "cancel"
 	// gateway shutdown (context cancel); "mqclose" broker closes the connection;
 	// "snrepeat" the client sends the D-th most recent of its datagrams again;
+	// "snclose" the client's transport is closed (the gateway's reads see EOF);
 	// "snfail" from now on the gateway's writes to the client fail (unreachable);
 	// "mqstall"/"mqunstall" the broker stops/resumes reading (writes to it block);
 	// "auto" replaces the reactive behaviour.
@@ -562,6 +563,9 @@ func (s *Session) Apply(i int, st Step) {
 		if raw != nil {
 			s.ClientSendRaw(raw)
 		}
+	case "snclose": // the client's transport is closed by the peer (e.g. a DTLS close_notify): the gateway reads EOF
+		s.ev(Event{Dir: EV, What: "SNCLOSE"})
+		s.SN.Close()
 	case "snfail": // the client's address has become unreachable: the gateway's writes to it fail
 		s.ev(Event{Dir: EV, What: "SNFAIL"})
 		s.SN.SetFailWrites(&net.OpError{Op: "write", Net: "udp", Err: errors.New("network is unreachable")})
